@@ -19,7 +19,9 @@
      twinB commits that have a twin BLOB sharing exactly their first 4 hex digits
    Hex digits are not modelled: the component "#<o><f>" stands for "the hexadecimal name of
    object o in form f" where f is  full (40 digits), p7/p5/p4 (prefix of that many digits),
-   p3 (below git's minimum abbreviation), u7/u5 (upper-case prefix); twins agree on the first
+   p3 (below git's minimum abbreviation), u7/u5 (upper-case prefix), w5/w7 (the first 4 / 6 digits of
+   the object followed by a digit that is NOT its next digit nor any other object's: an odd-length
+   abbreviation naming nothing; the harness prefers a digit whose bits are a subset of the real one); twins agree on the first
    4 digits and differ in the 5th (so p5 must look at the odd digit to tell them apart).  A ref may be *named* by such a component
    (a branch called like an abbreviated commit id).  The harness renders the symbols after it
    has created the objects (harness/cmd/vhdag2/c47.go).
@@ -57,7 +59,7 @@ KindOf(R, o)   == IF IsCommit(R, o) THEN "commit" ELSE IF o = TA THEN "tag" ELSE
                   ELSE IF o = TR THEN "tree" ELSE "none"
 
 \* ------------------------------------------------------------------ hex names
-Forms == {"full", "p7", "p5", "p4", "p3", "u7", "u5"}
+Forms == {"full", "p7", "p5", "p4", "p3", "u7", "u5", "w5", "w7"}
 HexObjs == {1, 2, 3, TA}
 HexTable == [x \in HexObjs \X Forms |-> "#" \o ToString(x[1]) \o x[2]]
 HexSyms == {HexTable[x] : x \in HexObjs \X Forms}
@@ -71,6 +73,7 @@ ShortOid(R, h, hint) ==
   LET i == HexInfo(h) IN
   IF ~(IsCommit(R, i.o) \/ i.o = TA)        THEN [o |-> 0, why |-> "short-oid-no-object"]
   ELSE IF i.f = "p3"                         THEN [o |-> 0, why |-> "short-oid-below-minimum-length"]
+  ELSE IF i.f \in {"w5", "w7"}               THEN [o |-> 0, why |-> "short-oid-wrong-last-odd-digit"]
   ELSE IF i.f = "p4" /\ i.o \in R.twinC
                                              THEN [o |-> 0, why |-> "short-oid-ambiguous-two-commits"]
   ELSE IF i.f = "p4" /\ i.o \in R.twinB /\ hint = "none"
